@@ -19,6 +19,9 @@ THEOREMS = ['Otel.C19.' + t for t in (
 HARNESSES = [Harness('s_c19', ['harness/s_c19.cc'],
                      sdk_srcs=sdk_sources('common', 'resource', 'version', 'metrics', 'trace', 'logs'),
                      includes=SDK_INCLUDES)]
+# sanitizer reports are classified by their first line; symbolizing every report would dominate a run in which many cases abort
+HARNESS_ENV = {'ASAN_OPTIONS': 'detect_leaks=0:abort_on_error=0:exitcode=99:allocator_may_return_null=1:symbolize=0',
+               'UBSAN_OPTIONS': 'print_stacktrace=0:halt_on_error=1:exitcode=98:symbolize=0'}
 H = 's_c19'
 RULE = ('validators: every byte value in first and in later position, lengths 0..300 with the boundaries 254/255/256 and 62/63/64, NUL and '
         '>=0x80 bytes, all in exact-size unterminated buffers; views: 1-4 registered views (type x pattern/exact/wildcard name x unit x meter '
